@@ -36,7 +36,7 @@ PROPS["C12"] = {
 }
 PROPS["C16"] = {
     "modules": ["Gws.Props.C16"],
-    "theorems": ["Utf8.write_gate", "Utf8.write_gate_bytes", "Utf8.split_invariant", "Utf8.binary_never_checked", "Utf8.check_off_never_rejects"],
+    "theorems": ["Utf8.write_gate", "Utf8.write_gate_bytes", "Utf8.split_invariant", "Utf8.binary_never_checked", "Utf8.check_off_never_rejects", "Utf8.valid_append_of_valid", "Utf8.pieces_valid_imp_gate", "Utf8.per_piece_check_too_strict"],
     "suites": ["utf8", "read"],
     "trusted": ["unicode/utf8.Valid decides RFC 3629 well-formedness (Spec.Utf8.valid): compared exhaustively on every byte string of length <= 3 on every run"],
 }
